@@ -1356,6 +1356,120 @@ Proof.
   unfold step. cbn [exec]. rewrite G, W. reflexivity.
 Qed.
 
+(* ---------- ... and from undelegating whatever amount the staking module accepts ---------- *)
+Lemma withdraw_rewards_live : forall a v si,
+  F1 v -> kget a (v_start v) = Some si ->
+  exists v1, withdraw_rewards a v = Ok v1 /\ href (v_period v1 - 1) v1 = 1.
+Proof.
+  intros a v si [S R SP SL] Gs.
+  assert (Psi : si_prev si < v_period v) by (destruct (kget_Forall _ _ _ _ SP Gs) as [k' Hk]; exact Hk).
+  unfold withdraw_rewards. rewrite Gs.
+  destruct (incr_period_ok v) as (v1 & I1).
+  { rewrite R, Z.eqb_refl. pose proof (cnt_start_nonneg (v_period v - 1) (v_start v)).
+    pose proof (cnt_slash_nonneg (v_period v - 1) (v_slashes v)). cbn [b2z]. lia. }
+  rewrite I1. cbn [bind].
+  pose proof (incr_period_spec _ _ I1) as ((T1&S1&D1&St1&Sl1) & P1 & _ & HR1).
+  rewrite St1, Gs.
+  destruct (dec_ref_ok (si_prev si) v1) as (v2 & I2).
+  { rewrite HR1. destruct (Z.eqb_spec (si_prev si) (v_period v)); [lia|]. rewrite R.
+    pose proof (cnt_start_ge1 _ _ _ Gs). pose proof (cnt_slash_nonneg (si_prev si) (v_slashes v)). bz. }
+  rewrite I2. cbn [bind].
+  pose proof (dec_ref_spec _ _ _ I2) as ((T2&S2&D2&St2&Sl2) & P2 & _ & HR2).
+  eexists. split; [reflexivity|].
+  cbn [v_period set_start]. rewrite (href_ext v2 _ _) by reflexivity. rewrite HR2, HR1, P2, P1.
+  replace (v_period v + 1 - 1) with (v_period v) by lia. rewrite Z.eqb_refl.
+  destruct (Z.eqb_spec (v_period v) (si_prev si)); [lia|]. cbn [b2z]. lia.
+Qed.
+
+Lemma init_delegation_live : forall h a v d,
+  href (v_period v - 1) v <= 2 -> kget a (v_dels v) = Some d -> v_shares v <> 0 ->
+  exists v', init_delegation h a v = Ok v'.
+Proof.
+  intros h a v d H G NZ. unfold init_delegation.
+  destruct (inc_ref_ok _ _ H) as (v1 & I1). rewrite I1. cbn [bind].
+  pose proof (inc_ref_spec _ _ _ I1) as ((T1&S1&D1&St1&Sl1) & P1 & _).
+  rewrite D1, G. unfold tokens_from_shares_trunc. rewrite S1.
+  destruct (v_shares v =? 0) eqn:E; [apply Z.eqb_eq in E; contradiction|]. cbn [bind]. eauto.
+Qed.
+
+(* RemoveDelShares never asks for more tokens than the validator has *)
+Lemma issued_le_tokens : forall tok vsh sh,
+  0 <= tok -> 0 < vsh -> 0 <= sh <= vsh ->
+  dec_trunc_int (dec_quo (dec_mul_int sh tok) vsh) <= tok.
+Proof.
+  intros tok vsh sh T V S. unfold dec_trunc_int, dec_quo, dec_mul_int.
+  pose proof prec_pos as PP. pose proof half_twice as HT.
+  set (X := Z.quot (sh * tok * (prec * prec)) vsh).
+  assert (X0 : 0 <= X) by (apply quot_nonneg; nia).
+  assert (XU : X <= tok * prec * prec).
+  { unfold X. rewrite Z.quot_div_nonneg by nia. apply Z.div_le_upper_bound; [lia|]. nia. }
+  assert (CU : chop_round X <= tok * prec).
+  { unfold chop_round. destruct (X <? 0) eqn:L; [apply Z.ltb_lt in L; lia|].
+    pose proof (chop_round_pos_bounds X X0) as (_ & B). nia. }
+  assert (C0 : 0 <= chop_round X) by (now apply chop_round_nonneg).
+  rewrite Z.quot_div_nonneg by lia. apply Z.div_le_upper_bound; lia.
+Qed.
+
+Lemma unbond_live_v : forall h a sh v d,
+  VInv v -> kget a (v_dels v) = Some d -> 0 < d -> 0 <= sh <= d ->
+  exists r, unbond_v h a sh v = Ok r.
+Proof.
+  intros h a sh v d VI G D SH. pose proof VI as [F SD SU NN K T].
+  assert (Ks : khas a (v_start v) = true) by (rewrite <- K; eapply kget_khas; eauto).
+  apply khas_true in Ks as (si & Gs).
+  destruct (withdraw_rewards_live a v si F Gs) as (v1 & W & H1).
+  pose proof (withdraw_rewards_frame _ _ _ W) as ((T1&S1&D1) & _ & _ & St1 & _).
+  assert (VS : d <= v_shares v) by (rewrite <- SU; eapply dsum_ge; eauto).
+  unfold unbond_v. rewrite G, W. cbn [bind].
+  destruct (d <? sh) eqn:L; [apply Z.ltb_lt in L; lia|].
+  assert (E2 : exists v2, (if d - sh =? 0 then Ok (set_dels (kdel a (v_dels v1)) v1)
+                           else init_delegation h a (set_dels (kset a (d - sh) (v_dels v1)) v1)) = Ok v2 /\
+                          v_tokens v2 = v_tokens v /\ v_shares v2 = v_shares v).
+  { destruct (d - sh =? 0).
+    - eexists. split; [reflexivity|]. cbn. auto.
+    - destruct (init_delegation_live h a (set_dels (kset a (d - sh) (v_dels v1)) v1) (d - sh)) as (v2 & I2).
+      + cbn [v_period set_dels]. rewrite (href_ext v1 _ _) by reflexivity. lia.
+      + cbn [v_dels set_dels]. apply kget_kset_same.
+      + cbn [v_shares set_dels]. lia.
+      + exists v2. split; [exact I2|].
+        apply init_delegation_frame in I2 as ((T2&S2&_) & _). cbn in T2, S2. split; congruence. }
+  destruct E2 as (v2 & E2 & T2 & S2). rewrite E2. cbn [bind].
+  destruct (v_shares v2 - sh =? 0); [eauto|].
+  unfold tokens_from_shares. rewrite S2, T2.
+  destruct (v_shares v =? 0) eqn:E; [apply Z.eqb_eq in E; lia|]. cbn [bind].
+  pose proof (issued_le_tokens (v_tokens v) (v_shares v) sh T ltac:(lia) ltac:(lia)) as IL.
+  destruct (v_tokens v - dec_trunc_int (dec_quo (dec_mul_int sh (v_tokens v)) (v_shares v)) <? 0) eqn:L2;
+    [apply Z.ltb_lt in L2; lia|]. eauto.
+Qed.
+
+Lemma validate_unbond_le : forall a amt v sh d,
+  kget a (v_dels v) = Some d -> validate_unbond a amt v = Ok sh -> sh <= d.
+Proof.
+  unfold validate_unbond; intros a amt v sh d G H. rewrite G in H.
+  apply bind_ok in H as (s1 & _ & H). apply bind_ok in H as (s2 & _ & H).
+  destruct (d <? s2); [discriminate|]. inversion H; subst; clear H.
+  destruct (d <? s1) eqn:L; [lia|apply Z.ltb_ge in L; lia].
+Qed.
+
+Theorem undelegate_live : forall n ops v vs a d amt sh,
+  Forall no_self ops -> let s := run (gen_state n) ops in
+  get_val v s = Some vs -> kget a (v_dels vs) = Some d -> 0 < d ->
+  0 < amt -> validate_unbond a amt vs = Ok sh -> ubd_entries a v s < max_entries ->
+  snd (step s (Undelegate v a amt)) = true.
+Proof.
+  intros n ops v vs a d amt sh F s G Gd D A V U.
+  assert (VI : VInv vs).
+  { eapply get_val_inv; [|exact G]. apply run_inv; [apply gen_state_inv|assumption]. }
+  assert (0 <= sh) by (eapply validate_unbond_nonneg; [exact VI| |exact V]; lia).
+  pose proof (validate_unbond_le _ _ _ _ _ Gd V).
+  destruct (unbond_live_v (s_height s) a sh vs d VI Gd D ltac:(lia)) as (r & R).
+  unfold step. cbn [exec].
+  destruct (amt <=? 0) eqn:E; [apply Z.leb_le in E; lia|].
+  rewrite G, V. cbn [bind].
+  destruct (max_entries <=? ubd_entries a v s) eqn:E2; [apply Z.leb_le in E2; lia|].
+  rewrite R. cbn [bind]. destruct (ubd_has a v (s_height s) (put_val v (fst r) s)); reflexivity.
+Qed.
+
 (* ====================================================================== *)
 (* 12. refutation witnesses and non-vacuity                                *)
 (* ====================================================================== *)
